@@ -111,6 +111,12 @@ def corpus():
         if nl[i].get("parts"):
             c["parts"] = nl[i]["parts"]
         out.append(c)
+    # seeded C06-f: every order of the same-key inline fragments is a perm_sels variant of the first
+    first = {}
+    for name, text in c05.memo_cases():
+        first.setdefault(name, text)
+        out.append({"sdl": c05.MEMO_SDL, "text": text, "base_text": first[name],
+                    "variant": "base" if text == first[name] else "perm_sels", "origin": "witness"})
     chain = c05._CHAIN
     head = "query Q($v: Int) { anchor(req: 1, inn: {v: 1}, lnn: [1]) { ...Ta } }"
     base = head + " " + " ".join(chain)
